@@ -365,7 +365,7 @@ def pairs(tier):
 
 
 def bounds(tier):
-    return {"histories": HISTORIES, "operations": OPS, "fault_kinds": ["gitfail", "runtime", "interrupt", "gitfail-after (worktree add)", "interrupt-after (worktree add)"], "max_faults": 1 if tier == "quick" else 2, "history_x_operation_pairs": len(list(pairs(tier)))}
+    return {"histories": HISTORIES, "operations": OPS, "fault_kinds": ["gitfail", "runtime", "interrupt", "gitfail-after (worktree add)", "interrupt-after (worktree add; clean-up commands, one and two in a row)"], "max_faults": 1 if tier == "quick" else 2, "history_x_operation_pairs": len(list(pairs(tier)))}
 
 
 def shards(tier):
@@ -400,7 +400,9 @@ def run_once(griffe, history, op, plan, template, baseline_leaks=()):
         fault_labels = [inj.log[i] if i < len(inj.log) else "?" for i in sorted(plan)]
         # (a fault in `worktree prune` ALONE is judged like any other: pruning is redundant once `worktree remove --force` has done its work,
         # and the steps after it run whatever happens to it)
-        in_cleanup = any(any(c in l for c in ("worktree-remove", "branch--D", "branch-D")) for l in fault_labels) or (len(fault_labels) > 1 and any("worktree-prune" in l for l in fault_labels))
+        # (faults of the "after" kinds let the command do its job first: they are judged for leaks like faults anywhere else)
+        hard = [l for i, l in zip(sorted(plan), fault_labels) if not str(plan[i]).endswith("-after")]
+        in_cleanup = any(any(c in l for c in ("worktree-remove", "branch--D", "branch-D")) for l in hard) or (len(hard) > 1 and any("worktree-prune" in l for l in hard))
         ctx = "+".join(f"{plan[i]}@{(inj.log[i] if i < len(inj.log) else '?')}" for i in sorted(plan)) or "no-fault"
         if not in_cleanup:
             for k in before:
@@ -478,6 +480,12 @@ def run_shard(shard, tier):
                     if not label.startswith("git:") or (f != "gitfail" and label != "git:worktree-add"):
                         continue
                 plans.append({i: f})
+        # interruptions that arrive as a CLEAN-UP command returns (the command did its job): one, and two in a row -- the steps after them still run, nothing is left behind
+        cleanup_points = [i for i, label in enumerate(log) if any(c in label for c in ("worktree-remove", "worktree-prune", "branch-D"))]
+        for a_, i in enumerate(cleanup_points):
+            plans.append({i: "interrupt-after"})
+            for j in cleanup_points[a_ + 1:]:
+                plans.append({i: "interrupt-after", j: "interrupt-after"})
         if tier == "thorough":
             for i, li in enumerate(log):
                 for j in range(i + 1, len(log)):
